@@ -344,7 +344,7 @@ func checkPremises(c *Ctx) {
 				if nn.Sign && nn.Cond.Op == "binop" && nn.Cond.Name == "==" && nn.Cond.Args[1].Op == "global" {
 					handled[nn.Cond.Args[1].Name] = true
 					// the expression GetIPPair switches on IS the IP-layer getter, whatever it is called after inlining
-					getterKeys[nn.Cond.Args[0].Key()] = true
+					getterKeys[nn.Cond.Args[0].String()] = true
 				}
 			}
 		}
@@ -365,7 +365,7 @@ func checkPremises(c *Ctx) {
 				for _, a := range atoms {
 					nn := a.Norm()
 					t := nn.Cond
-					if !nn.Sign || !(strings.Contains(t.String(), "GetIPLayer") || t.Has(func(x *core.Term) bool { return getterKeys[x.Key()] })) {
+					if !nn.Sign || !(strings.Contains(t.String(), "GetIPLayer") || t.Has(func(x *core.Term) bool { return getterKeys[x.String()] })) {
 						continue
 					}
 					switch {
